@@ -21,7 +21,7 @@ func init() {
 }
 
 func run(t *T) {
-	n := t.Budget(130)
+	n := t.Budget(200)
 	for i := 0; i < n; i++ {
 		r := t.R.Fork(uint64(i))
 		spec := m.DrawSpec(r, 6)
